@@ -22,7 +22,7 @@ LEVEL_NOTE = ("Trusted: Coq kernel, hand model of the filter pen (correspondence
               "compared on order/cmap/hmtx only (composite vs inlined rounding differs inherently, DESIGN C13); the interpolatable "
               "variant of the filter (sparse masters, interpolated layers) is observed, not modelled; generated kerning/marks on "
               "remaining glyphs are covered through C05/C06's interpreter runs with skipExportGlyphs.")
-TECHNIQUE = "Coq theorems (no reference to skipped glyphs left; filtered glyph set renders a permutation of the source contours, for all inputs) + exact correspondence of the Gallina filter with SkipExportGlyphsFilter; designspace builds observed"
+TECHNIQUE = "Coq theorems (no reference to skipped glyphs left; filtered glyph set renders a permutation of the source contours, for all inputs; the variation-sequence loop translated from source and proved to name exported glyphs only) + exact correspondence of the Gallina filter with SkipExportGlyphsFilter; designspace builds observed"
 IMPORTS = "From U2F Require Import Base.Prelude Geometry.Model Geometry.Cff Geometry.Filters."
 RULE = ("random component DAGs (depth <= 3-4, mirrored/nested references) x random skip subsets biased to glyphs used as bases "
         "(thorough: every subset of fonts with <= 6 glyphs) given by argument or by public.skipExportGlyphs, both UFO libraries; "
